@@ -142,7 +142,7 @@ func copyDir(src, dst string) {
 // fixtureCases lists documents of the repository's fixtures directory that load as Swagger documents.
 func fixtureFiles() []string {
 	out := []string{}
-	filepath.Walk("/repo/fixtures", func(p string, info os.FileInfo, err error) error {
+	filepath.Walk(repoDir()+"/fixtures", func(p string, info os.FileInfo, err error) error {
 		if err != nil || info.IsDir() {
 			return nil
 		}
@@ -158,4 +158,11 @@ func fixtureFiles() []string {
 	})
 	sort.Strings(out)
 	return out
+}
+
+func repoDir() string {
+	if v := os.Getenv("VERIF_REPO"); v != "" {
+		return v
+	}
+	return "/repo"
 }
